@@ -59,3 +59,36 @@ def stream_lr(chk, strings):
         'rejected_by_parser': sum(o.startswith('err syntax ; r=') for o in outs),
         'longest_reduction_sequence': max([o.count(',') + 1 for o in outs if '; r=' in o and not o.endswith('r=')] or [0])})
     return chk.stream('plural-lr', lines, outs)
+
+
+def impl_lex(s):
+    """the real rply lexer, run to exhaustion: 'ok NAME:text …' (INT text as its value) | 'err lex'"""
+    try:
+        from lib import intexpr
+        lexer = intexpr.create_lexer()
+    except Exception as exc:
+        return 'err setup ' + type(exc).__name__
+    try:
+        toks = list(lexer.lex(s))
+    except intexpr.LexingError:
+        return 'err lex'
+    except Exception as exc:
+        return 'err ' + type(exc).__name__
+    out = []
+    for t in toks:
+        name, text = t.gettokentype(), t.getstr()
+        if name == 'INT':
+            try:
+                text = str(int(text))
+            except Exception as exc:
+                return 'err ' + type(exc).__name__
+        out.append(f'{name}:{text}')
+    return 'ok ' + ' '.join(out)
+
+def stream_lex(chk, strings):
+    strings = [s for s in strings if len(s) < 3000]
+    lines = ['plurallr lex ' + P.hexchars(s) for s in strings]
+    outs = [impl_lex(s) for s in strings]
+    chk.coverage.setdefault('lex_inputs', {}).update({
+        'strings': len(strings), 'tokenised': sum(o.startswith('ok') for o in outs), 'lexing_errors': sum(o == 'err lex' for o in outs)})
+    return chk.stream('plural-lex', lines, outs)
